@@ -69,3 +69,45 @@ package jd
 //@ contract specSoriEq
 //@   opaque
 //@   trusted
+
+// ---------------------------------------------------------------------
+// v1 RFC renderings (C18): no panic on valid diffs; RenderPatch does not write to the diff it
+// renders; RenderMerge is declared to modify its receiver (it overwrites void additions with null
+// in place before patching the empty document; v1 is not covered by the purity property C15).
+
+//@ contract validHunk
+//@   opaque
+
+//@ contract writePointer
+//@   requires validNodes(path)
+//@   carries C18
+
+//@ contract readPointer
+//@   ensures ret1 == nil ==> validNodes(ret0)
+//@   loop "range tokens" invariant forallInt(0, idx, func(i int) bool { return validNode(path[i]) })
+//@   carries C18
+
+//@ contract (Diff).RenderPatch
+//@   requires validDiff(d)
+//@   carries C18
+
+//@ contract (Diff).RenderMerge
+//@   requires validDiff(d)
+//@   modifies d
+//@   carries C18
+
+//@ contract validNode
+//@   opaque
+//@   axiom
+//@ contract validNodes
+//@   opaque
+//@   axiom
+//@ contract validObject
+//@   opaque
+//@   axiom
+
+// v1 NewJsonNode is not verified (v1 is in maintenance); its result validity is assumed.
+//@ contract NewJsonNode
+//@   trusted
+//@   ensures ret1 == nil ==> validNode(ret0)
+//@   ensures specScalarAny(n) ==> ret1 == nil
